@@ -1,6 +1,7 @@
 SPECIFICATION MCSpec
 CONSTANTS AggReplace = FALSE
  AggKeepFirst = FALSE
+ EarlyAdd = FALSE
  MCKinds = {"agg"}
  MaxStores = 4
  MaxQ = 2
